@@ -121,7 +121,6 @@ static int print_i(void (*printchar_handler)(void *d, int c),
     prefix = is_signed && ((long long int)u < 0)         ? (u = -u, "-")
              : is_signed && (ops & OPS_FLAG_WITH_SIGN)   ? "+"
              : is_signed && (ops & OPS_FLAG_EXTRA_SPACE) ? " "
-             : (base == 8) && (ops & OPS_FLAG_WITH_SPEC) && u ? "0"
              : (base == 16) && (ops & OPS_FLAG_WITH_SPEC) &&
                      (u || (ops & OPS_SPEC_POINTER))
                  ? ops & OPS_SPEC_UPPER_CASE ? "0X" : "0x"
@@ -146,12 +145,17 @@ static int print_i(void (*printchar_handler)(void *d, int c),
     }
 
     len = (int)(end - str);
-    zero_count =
-        (len < min_len                                               ? min_len
-         : (ops & OPS_FLAG_ZERO_PAD) && !(ops & OPS_FLAG_LEFT_ALIGN) ? width
-                                                                     : 0) -
-        len - prefix_len;
-    zero_count = MAX(zero_count, 0);
+    /* the alternate octal form raises the precision so that the first digit
+     * is a zero */
+    if ((base == 8) && (ops & OPS_FLAG_WITH_SPEC) && (*str != '0'))
+        min_len = MAX(min_len, len + 1);
+    /* the precision is the minimum number of digits, sign and prefix not
+     * counted; the 0 flag fills the field width instead, unless a precision
+     * or the - flag is given */
+    zero_count = MAX(min_len - len, 0);
+    if ((ops & OPS_FLAG_ZERO_PAD) &&
+        !(ops & (OPS_FLAG_LEFT_ALIGN | OPS_PREC_IS_GIVEN)))
+        zero_count = MAX(zero_count, width - len - prefix_len);
     space_count = width - len - prefix_len - zero_count;
     space_count = MAX(space_count, 0);
 
@@ -600,9 +604,9 @@ int __printf(void (*printchar_handler)(void *d, int c),
                           (size_t)tmp.vp,
                           0,
                           width,
-                          sizeof tmp.vp * 2 + 2,
-                          ops | (OPS_FLAG_WITH_SPEC | OPS_FLAG_ZERO_PAD |
-                                 OPS_SPEC_POINTER),
+                          sizeof tmp.vp * 2,
+                          (ops & ~OPS_FLAG_ZERO_PAD) |
+                              (OPS_FLAG_WITH_SPEC | OPS_SPEC_POINTER),
                           16);
             break;
         case 'n':
